@@ -135,6 +135,7 @@ def nanops_stream(res, rng, tier):
         approx = 1e-5 if dt == "float32" else (name in ("nanmean", "nanvar", "nanstd"))  # float32: NumPy accumulates in float32, the library in float64
         ok = same_num(got, want, approx)
         if not ok and name in ("nanvar", "nanstd") and dt != "float32":
+            # (C20_two_pass_rounding: each is within E (S + n delta^2) + n delta^2 of the exact S, delta = the rounding error of its mean)
             # two implementations of the two-pass variance may differ by the square of the rounding error of their means
             # (sum (x - m')^2 = sum (x - m)^2 + n (m' - m)^2): with mean errors up to n u max|x| each, the variances may be
             # 2 (2 n u max|x|)^2 apart - visible only when the spread is a few thousand ulps of the magnitude (epoch ns)
